@@ -1,6 +1,7 @@
 package minievm
 
 import (
+	"crypto/ecdsa"
 	"fmt"
 	"math/rand"
 	"os"
@@ -12,6 +13,7 @@ import (
 	"github.com/ethereum/go-ethereum/core/tracing"
 	"github.com/ethereum/go-ethereum/core/types"
 	"github.com/ethereum/go-ethereum/core/vm"
+	"github.com/ethereum/go-ethereum/crypto"
 	"github.com/holiman/uint256"
 )
 
@@ -37,6 +39,18 @@ type Tx struct {
 	SkipNonce bool      `json:"skipNonce"`
 
 	FromReal *common.Address `json:"-"` // sender address when it is not a small integer (From holds its token)
+
+	// EIP-4844 envelope (no blob data): version bytes of the blob hashes, fee cap, base fee
+	BlobTx      bool   `json:"blobTx"`
+	BlobVers    []int  `json:"blobVers"`
+	BlobFeeCap  uint64 `json:"blobFeeCap"`
+	BlobBaseFee uint64 `json:"blobBaseFee"`
+	// EIP-7702 authorisation list as the specification sees it, and the signed tuples
+	SetCode   bool                         `json:"setCode"`
+	Auths     []AuthEv                     `json:"auths"`
+	AuthList  []types.SetCodeAuthorization `json:"-"`
+	ToReal    *common.Address              `json:"-"` // recipient when it is a token (To < 0)
+	PreIntern []common.Address             `json:"-"` // addresses interned (in this order) before execution
 }
 
 type Acct struct {
@@ -73,6 +87,54 @@ type Result struct {
 // execute runs one transaction on a fresh state; traced selects full event recording.
 func Execute(w *World, tx *Tx, data []byte, traced bool) *Result {
 	return ExecuteWith(w, tx, data, &ExecOpts{Traced: traced})
+}
+
+// AuthKeys are the fixed keys of the EIP-7702 authorities of generated worlds.
+var AuthKeys = func() []*ecdsa.PrivateKey {
+	var out []*ecdsa.PrivateKey
+	for _, h := range []string{"8a1f9a8f95be41cd7ccb6168179afb4504aefe388d1e14474d32c45c72ce7b7a", "49a7b37aa6f6645917e7b807e9d1c00d4fa71f18343b0d4122a4d2df64dd6fee"} {
+		k, err := crypto.HexToECDSA(h)
+		if err != nil {
+			panic(err)
+		}
+		out = append(out, k)
+	}
+	return out
+}()
+
+// AuthAddr returns the address of authority i.
+func AuthAddr(i int) common.Address { return crypto.PubkeyToAddress(AuthKeys[i].PublicKey) }
+
+// SignAuths builds the signed tuples described by evs (authority token -2-i = AuthKeys[i]).
+func SignAuths(evs []AuthEv) []types.SetCodeAuthorization {
+	out := []types.SetCodeAuthorization{}
+	for _, ev := range evs {
+		chain, key := uint64(1), AuthKeys[0]
+		if !ev.ChainOk {
+			chain = 5
+		}
+		if ev.Authority <= -2 {
+			key = AuthKeys[-2-ev.Authority]
+		}
+		au, err := types.SignSetCode(key, types.SetCodeAuthorization{ChainID: *uint256.NewInt(chain), Address: Addr(uint64(ev.Target)), Nonce: ev.Nonce})
+		if err != nil {
+			panic(err)
+		}
+		if ev.Authority == -1 {
+			au.V = 4 // does not recover
+		}
+		out = append(out, au)
+	}
+	return out
+}
+
+// AuthEv is one authorisation tuple: chain id acceptable, nonce, delegation target (small
+// address, 0 = clear) and the recovered authority (token; -1 = signature does not recover).
+type AuthEv struct {
+	ChainOk   bool   `json:"chainOk"`
+	Nonce     uint64 `json:"nonce"`
+	Target    int64  `json:"target"`
+	Authority int64  `json:"authority"`
 }
 
 // Sender returns the 20-byte sender address.
@@ -114,6 +176,9 @@ func ExecuteWith(w *World, tx *Tx, data []byte, o *ExecOpts) *Result {
 	if tx.FromReal != nil {
 		tr.In.Addr(*tx.FromReal) // the sender is always token -2
 	}
+	for _, a := range tx.PreIntern {
+		tr.In.Addr(a)
+	}
 	bctx := core.NewEVMBlockContext(header, NewChain(cfg), nil)
 	hooks := tr.Hooks()
 	if o.Gate != nil {
@@ -151,8 +216,24 @@ func ExecuteWith(w *World, tx *Tx, data []byte, o *ExecOpts) *Result {
 		Data:            data,
 		SkipNonceChecks: tx.SkipNonce,
 	}
+	if tx.BlobTx {
+		msg.BlobGasFeeCap = uint256.NewInt(tx.BlobFeeCap)
+		msg.BlobHashes = []common.Hash{}
+		for i, v := range tx.BlobVers {
+			msg.BlobHashes = append(msg.BlobHashes, common.Hash{byte(v), 0xb1, byte(i)})
+		}
+	}
+	if tx.SetCode {
+		msg.SetCodeAuthorizations = tx.AuthList
+		if msg.SetCodeAuthorizations == nil {
+			msg.SetCodeAuthorizations = []types.SetCodeAuthorization{}
+		}
+	}
 	if !tx.IsCreate {
 		a := Addr(uint64(tx.To))
+		if tx.ToReal != nil {
+			a = *tx.ToReal
+		}
 		msg.To = &a
 	}
 	for i, a := range tx.AlAddrs {
@@ -274,11 +355,20 @@ func GenScenario(r *rand.Rand) *Scenario {
 	w := &World{}
 	fork := Forks[r.Intn(3)]
 	rich := r.Intn(3) != 0
+	withAuth := fork != "cancun" && r.Intn(5) == 0
+	var bigTargets [][]byte
+	if withAuth {
+		for i := 0; i < 2; i++ {
+			a := AuthAddr(i)
+			bigTargets = append(bigTargets, a[:])
+		}
+	}
 	leaf := Opts{MaxDepth: 1, Stmts: 4, FailBias: 3, AllowOpaque: rich, AllowBig: r.Intn(2) == 0, AllowGas: r.Intn(2) == 0,
 		AllowDestruct: r.Intn(3) == 0, IgnoreCallFail: true}
 	mid := leaf
 	mid.Targets = []uint64{AddrC3, AddrC1, AddrDeleg}
-	top := Opts{MaxDepth: 2, Stmts: 6, FailBias: 1, Targets: []uint64{AddrC2, AddrC3, AddrDeleg}, AllowOpaque: rich, AllowBig: r.Intn(2) == 0,
+	mid.BigTargets = bigTargets
+	top := Opts{MaxDepth: 2, Stmts: 6, FailBias: 1, Targets: []uint64{AddrC2, AddrC3, AddrDeleg}, BigTargets: bigTargets, AllowOpaque: rich, AllowBig: r.Intn(2) == 0,
 		AllowGas: r.Intn(2) == 0, AllowCreate: r.Intn(3) == 0, AllowDestruct: r.Intn(4) == 0, IgnoreCallFail: true}
 	code := func(o Opts) []byte {
 		if r.Intn(12) == 0 {
@@ -314,7 +404,21 @@ func GenScenario(r *rand.Rand) *Scenario {
 	if r.Intn(3) == 0 {
 		w.Add(&Account{Addr: AddrCoinbase, Balance: uint64(r.Intn(10))})
 	}
-	tx := &Tx{Fork: fork, From: AddrSender, Coinbase: AddrCoinbase, BlockGas: 30_000_000, AlAddrs: []int64{}, AlKeys: [][]int64{}, Data: []int{}, DataW: []int64{}}
+	if withAuth {
+		for i := 0; i < 2; i++ {
+			a := AuthAddr(i)
+			switch r.Intn(5) {
+			case 0: // funded EOA
+				w.Add(&Account{Real: &a, Tok: int64(-2 - i), Balance: uint64(1 + r.Intn(50)), Nonce: uint64(r.Intn(2))})
+			case 1: // already delegated
+				w.Add(&Account{Real: &a, Tok: int64(-2 - i), Balance: uint64(r.Intn(3)), Nonce: 1, Code: Delegation([]uint64{AddrC3, AddrC2}[r.Intn(2)])})
+			case 2: // a contract: authorisations for it are invalid
+				w.Add(&Account{Real: &a, Tok: int64(-2 - i), Nonce: 1, Code: []byte{PUSH0, PUSH0, SSTORE, STOP}})
+			}
+		}
+	}
+	tx := &Tx{Fork: fork, From: AddrSender, Coinbase: AddrCoinbase, BlockGas: 30_000_000, AlAddrs: []int64{}, AlKeys: [][]int64{}, Data: []int{}, DataW: []int64{},
+		BlobVers: []int{}, BlobBaseFee: 1, Auths: []AuthEv{}}
 	tx.BaseFee = uint64(r.Intn(8))
 	tx.Tip = uint64(r.Intn(4))
 	tx.FeeCap = tx.BaseFee + tx.Tip + uint64(r.Intn(3))
@@ -373,6 +477,66 @@ func GenScenario(r *rand.Rand) *Scenario {
 					}
 				}
 			}
+		}
+	}
+	if withAuth {
+		tx.PreIntern = []common.Address{AuthAddr(0), AuthAddr(1)} // their tokens are -2 and -3 in every trace of this world
+	}
+	// EIP-4844 envelope
+	if sc.Kind == "call" && r.Intn(10) == 0 {
+		tx.BlobTx = true
+		n := 1 + r.Intn(3)
+		if fork == "osaka" && r.Intn(8) == 0 {
+			n = 7
+		}
+		for i := 0; i < n; i++ {
+			v := 1
+			if r.Intn(25) == 0 {
+				v = 2
+			}
+			tx.BlobVers = append(tx.BlobVers, v)
+		}
+		tx.BlobFeeCap = []uint64{1, 1, 5, 40, 0}[r.Intn(5)]
+		if r.Intn(30) == 0 {
+			tx.BlobVers = []int{}
+		}
+	}
+	// EIP-7702 authorisation list
+	if (sc.Kind == "call" || sc.Kind == "call-deleg") && fork != "cancun" && !tx.BlobTx && withAuth {
+		tx.SetCode = true
+		nonces := map[int]uint64{}
+		for i := 0; i < 2; i++ {
+			if a := w.GetReal(AuthAddr(i)); a != nil {
+				nonces[i] = a.Nonce
+			}
+		}
+		for k, n := 0, 1+r.Intn(3); k < n; k++ {
+			i := r.Intn(2)
+			ev := AuthEv{ChainOk: true, Nonce: nonces[i], Target: []int64{AddrC3, AddrC3, AddrC2, 0, AddrDeleg, AddrEOA2}[r.Intn(6)], Authority: int64(-2 - i)}
+			chain := uint64(r.Intn(2))
+			if r.Intn(10) == 0 {
+				chain, ev.ChainOk = 5, false
+			}
+			if r.Intn(8) == 0 {
+				ev.Nonce += uint64(1 + r.Intn(2))
+			}
+			au, err := types.SignSetCode(AuthKeys[i], types.SetCodeAuthorization{ChainID: *uint256.NewInt(chain), Address: Addr(uint64(ev.Target)), Nonce: ev.Nonce})
+			if err != nil {
+				panic(err)
+			}
+			if r.Intn(12) == 0 {
+				au.V = 4 // does not recover
+				ev.Authority = -1
+			}
+			tx.AuthList = append(tx.AuthList, au)
+			tx.Auths = append(tx.Auths, ev)
+			// what a valid tuple does to the authority's nonce (for the following tuples)
+			if a := w.GetReal(AuthAddr(i)); ev.ChainOk && ev.Authority != -1 && ev.Nonce == nonces[i] && (a == nil || len(a.Code) == 0 || len(a.Code) == 23) {
+				nonces[i]++
+			}
+		}
+		if r.Intn(40) == 0 {
+			tx.AuthList, tx.Auths = nil, []AuthEv{}
 		}
 	}
 	w.Add(&Account{Addr: AddrSender, Balance: 900_000_000 + uint64(r.Intn(100_000_000)), Nonce: tx.Nonce})
